@@ -1,4 +1,4 @@
-"""One-off: pin the length limits and choice lists the PDF mappings of the shipped forms declare (unchanged tree), so that
+"""One-off: pin which line each PDF box is mapped to, and the length limits and choice lists the PDF mappings of the shipped forms declare (unchanged tree), so that
 C19's oracle does not have to trust the live mapping objects for them.  Writes catalogues/pdf_limits_<year>.json."""
 import json
 import sys
@@ -8,6 +8,7 @@ from simtax import core, shipped  # noqa
 
 for y in shipped.YEARS:
     out = {}
+    mapping = {}
     for fname, f in sorted(shipped.catalogue(y).items()):
         obj = f['cls'](instance=(f['instances'][0] if f['instances'] else None))
         lim = {}
@@ -21,6 +22,9 @@ for y in shipped.YEARS:
                 lim[pf.pdf_field_name] = ent
         if lim:
             out[fname] = lim
-    json.dump({'year': y, 'derived_from_repo_commit': core.git_head(core.REPO), 'limits': out},
+        mp = {pf.pdf_field_name: pf.field_name for pf in obj.pdf_fields()}
+        if mp:
+            mapping[fname] = mp
+    json.dump({'year': y, 'derived_from_repo_commit': core.git_head(core.REPO), 'limits': out, 'mapping': mapping},
               open(f'/verif/catalogues/pdf_limits_{y}.json', 'w'), indent=1, sort_keys=True)
     print(y, {k: len(v) for k, v in out.items()})
